@@ -610,3 +610,16 @@ class GenExp:
         self.node, self.env, self.cls = node, env, cls
 
 
+
+
+class Opaque:
+    """contract-declared opaque token (e.g. a dict whose content only abstract callees look at)"""
+
+    def __init__(self, tag="opaque"):
+        self.tag = tag
+
+    def sym_havoc(self, ex, tag):
+        return self
+
+    def sym_truthy(self, ex):
+        raise Unsupported("truthiness of opaque " + self.tag)
